@@ -129,9 +129,6 @@ fn check_packet<C: Codec>(
                             ),
                         );
                     }
-                    if spec::varint_len(rl as u32) != h - 1 {
-                        out.violate(sig("nonminimal-header"), format!("remaining length {rl} encoded in {} bytes", h - 1));
-                    }
                 }
                 Err(e) => out.violate(sig("bad-header"), format!("emitted fixed header does not parse: {e:?}")),
             }
